@@ -58,6 +58,20 @@ impl GasBinder {
                     env.invoke_contract::<()>(&addr, &soroban_sdk::Symbol::new(&env, "mint"), svec![&env, to.into_val(&env), amt.into_val(&env)]);
                 }
             }
+            // standing allowances toward the service (third-party state on the token: a payer may have approved the
+            // service for other reasons) - payments must still come from the named spender only
+            if let Some(al) = inst.get("Allowances").and_then(|x| x.as_array()) {
+                if t != "nv" {
+                    for who in al {
+                        let w = cx.addr(who.as_str().unwrap());
+                        env.invoke_contract::<()>(
+                            &addr,
+                            &soroban_sdk::Symbol::new(&env, "approve"),
+                            svec![&env, w.into_val(&env), gs.into_val(&env), 1000i128.into_val(&env), 900_000_000u32.into_val(&env)],
+                        );
+                    }
+                }
+            }
             tokens.insert(t, addr);
         }
         env.set_auths(&[]);
